@@ -8,12 +8,12 @@ MkKv(cs, as, ns, ks, vs) == {Tx(c, a, n, k, v) : c \in cs, a \in as, n \in ns, k
 Unsigned == {Tx(c, 0, 0, NoKV, NoKV) : c \in UnsignedClasses}
 
 \* quick exhaustive alphabet: one account, nonces 0..1, the classes whose paths differ in the code
-TxQ == Mk({"xfer", "create", "createfail", "call", "value"}, {1}, 0..1)
+TxQ == Mk({"xfer", "create", "createfail", "createcalls", "call", "valuecalls", "value"}, {1}, 0..1)
          \cup MkKv({"kv"}, {1}, 0..1, {"k1"}, {"a"})
          \cup Mk({"kvbad", "admshort"}, {1}, {0})
          \cup Unsigned
 \* graph alphabet (every edge of its state graph is replayed on the real application)
-TxG == Mk({"xfer", "call", "createfail"}, {1}, 0..1) \cup Mk({"create", "value"}, {1}, {0})
+TxG == Mk({"xfer", "call", "createfail"}, {1}, 0..1) \cup Mk({"create", "createcalls", "value"}, {1}, {0})
          \cup MkKv({"kv"}, {1}, 0..1, {"k1"}, {"a"})
          \cup {Tx(c, 0, 0, NoKV, NoKV) : c \in {"empty", "badsig"}}
 \* every class, two accounts: used for simulation and the thorough exhaustive run
@@ -26,7 +26,7 @@ TxL == Mk({"xfer", "create", "createfail", "call", "value"}, A2, 0..2)
          \cup MkKv({"kv"}, A2, 0..1, {"k1"}, {"a"})
          \cup Unsigned
 \* medium: two accounts, fewer classes
-TxM == Mk({"xfer", "create", "createfail", "call", "revert", "price"}, A2, 0..1)
+TxM == Mk({"xfer", "create", "createfail", "createcalls", "call", "valuecalls", "revert", "price"}, A2, 0..1)
          \cup MkKv({"kv"}, A2, 0..1, {"k1"}, {"a", "b"})
          \cup Unsigned
 Bound == /\ \A a \in Acct : st.nonce[a] <= 4
